@@ -175,7 +175,7 @@ class ConcurrentExecutorFutureResults(ConcurrentExecutorListResults):
     def _put_result(self, result, idx, success):
         super()._put_result(result, idx, success)
         with self._condition:
-            if self._current == self._exec_count:
+            if self._current == self._exec_count and not self.future.done():
                 if self._exception and self._fail_fast:
                     self.future.set_exception(self._exception)
                 else:
